@@ -225,6 +225,321 @@ let process_run hdr (lines : string array) =
   Printf.printf "RUN seq=%s status=%s rc=%s what=%s mode=%s seed=%s nsched=%s events=%d packets=%d fetches=%d labels=%d model=%s xunlock=%d\n"
     (g "seq") (g "status") (g "rc") (g "what") (g "mode") (g "seed") (g "nsched") (Array.length lines) !packets !fetches !labels !verdict !xunlock
 
+
+(* ================================================================================================== *)
+(* REFINED model replay (Worker.rstep = extracted coq/Conc/WorkerRefined.v), lock by lock.
+   Every worker task is bracketed by `ev w_begin <variant>` / `ev w_end` on the executing thread (harness
+   trampoline).  The model thread executes
+     - a lock / unlock instruction exactly at the trace's lock / unlock event of that thread (it must stand at an
+       instruction naming the same mutex, and the model's lock table must allow it);
+     - its local instructions (tests, shared reads and writes, nzeros++ ...) at the event that starts the real
+       thread's atomic block (lock acquired / cont / w_begin ...) whose next scheduling event is the next
+       protocol call: the deterministic tests (excep, nzeros, again, job) are decided by the MODEL's state;
+       data-dependent tests and the Newton outcome are searched (depth first) so that the path ends at the
+       instruction of the real thread's next call and reproduces the harness's sample `ev st` (nzeros, excep,
+       again flag of the job's root) taken just before that call and the job `ev job` it was handed;
+     - value hashes `ev vh`: the hash of a root's value fields may change between two observations only if the
+       model wrote the value in between.
+   At packet end: every task returned, every mutex free in the model, again flags equal. *)
+type rev = { e_tid : int; e_op : string; e_cls : string; e_ix : int; e_tag : string; e_a : int; e_sched : bool; e_start : bool }
+type rtarget = TRet | TOp of string * string * int | TNone
+type rpacket = {
+  mutable rs : rstate; rprm : rparams; rvar : int; rn : int; rk : int; rreq : int;
+  rmap : (int, int) Hashtbl.t; mutable rnext : int; mutable rsteps : int; mutable since : int;
+  lasth : (int, int * int) Hashtbl.t; mutable rops : int }
+
+let nat_cache = Array.make 8192 O
+let () = for i = 1 to 8191 do nat_cache.(i) <- S nat_cache.(i - 1) done
+let nat_fast n = if n >= 0 && n < 8192 then nat_cache.(n) else nat_of_int n
+
+let rtot_runs = ref 0 and rtot_ok = ref 0 and rtot_rej = ref 0 and rtot_steps = ref 0 and rtot_ops = ref 0 and rtot_tasks = ref 0
+let rtot_packets = ref 0 and rtot_samples = ref 0 and rtot_hashes = ref 0 and rtot_search = ref 0
+let rvar_hist = Array.make 6 0       (* tasks per variant *)
+let rvar_pool1 = Array.make 6 0      (* tasks per variant run with a pool of one thread *)
+let rinstr_hist : (string, int) Hashtbl.t = Hashtbl.create 32
+let variant_name = [| "F"; "D"; "M"; "SF"; "SD"; "SM" |]
+let variant_of_int = function 0 -> VF | 1 -> VD | 2 -> VM | 3 -> VSF | 4 -> VSD | _ -> VSM
+
+let cls_of_lk = function LQ -> ("queue", 0) | LR i -> ("root", int_of_nat i) | LG -> ("gaberth", 0)
+                       | LA i -> ("aberth", int_of_nat i) | LS -> ("gs", 0)
+let is_protocol c = (c = "root" || c = "aberth" || c = "gaberth" || c = "gs" || c = "queue")
+let instr_name = function
+  | ILock _ -> "lock" | IUnlock _ -> "unlock" | IFetch -> "fetch" | IBr (CData _, _, _) -> "br-data" | IBr _ -> "br" | IGoto _ -> "goto"
+  | ISetExcep -> "set-excep" | ISetAgain _ -> "set-again" | INewton -> "newton" | IWriteVal -> "write-val" | IWriteAux -> "write-aux"
+  | IWriteRad -> "write-rad" | IReadVal -> "read-val" | IReadOther -> "read-other" | ILoadNz -> "load-nz" | IStoreNz -> "store-nz"
+  | ILoadIt -> "load-it" | IStoreIt -> "store-it" | IKAll | IKCluster | IKNext -> "k" | IRet -> "ret"
+let hist_add h k = Hashtbl.replace h k (1 + (try Hashtbl.find h k with Not_found -> 0))
+
+(* re-tabulate the function-valued fields of the model state on the packet's finite domain (extensionally
+   equal; keeps look-ups O(1) instead of walking the chain of updates) *)
+let compact pk =
+  let s = pk.rs in
+  let k = pk.rk and n = pk.rn + 1 in
+  let tha = Array.init k (fun t -> s.r_th (nat_fast t)) in
+  let aga = Array.init n (fun i -> s.r_again (nat_fast i)) in
+  let va = Array.init n (fun i -> s.r_valv (nat_fast i)) and aa = Array.init n (fun i -> s.r_auxv (nat_fast i)) in
+  let ra = Array.init n (fun i -> s.r_radv (nat_fast i)) in
+  let oq = s.r_own LQ and og = s.r_own LG and os = s.r_own LS in
+  let orr = Array.init n (fun i -> s.r_own (LR (nat_fast i))) and oa = Array.init n (fun i -> s.r_own (LA (nat_fast i))) in
+  let again_far = s.r_again in
+  pk.rs <- { s with
+    r_th = (fun t -> let j = int_of_nat t in if j < k then tha.(j) else thr0);
+    r_again = (fun i -> let j = int_of_nat i in if j < n then aga.(j) else again_far i);
+    r_valv = (fun i -> let j = int_of_nat i in if j < n then va.(j) else O);
+    r_auxv = (fun i -> let j = int_of_nat i in if j < n then aa.(j) else O);
+    r_radv = (fun i -> let j = int_of_nat i in if j < n then ra.(j) else O);
+    r_own = (fun l -> match l with
+        | LQ -> oq | LG -> og | LS -> os
+        | LR i -> let j = int_of_nat i in if j < n then orr.(j) else None
+        | LA i -> let j = int_of_nat i in if j < n then oa.(j) else None) };
+  pk.since <- 0
+
+let parse_rev names ln =
+  let cls_of m = try Hashtbl.find names m with Not_found -> ("unnamed", 0) in
+  match String.split_on_char ' ' ln with
+  | [ts; "ev"; tg; a] ->
+    (try Some { e_tid = int_of_string ts; e_op = "ev"; e_cls = ""; e_ix = 0; e_tag = tg; e_a = int_of_string a; e_sched = false; e_start = false }
+     with Failure _ -> None)
+  | ts :: op :: rest ->
+    (try
+       let tid = int_of_string ts in
+       let mk c ix sched start = Some { e_tid = tid; e_op = op; e_cls = c; e_ix = ix; e_tag = ""; e_a = 0; e_sched = sched; e_start = start } in
+       (match op, rest with
+        | ("lock" | "unlock" | "trylock"), m :: _ -> let (c, ix) = cls_of m in mk c ix true (op <> "unlock")
+        | ("cwait" | "cwake"), _ :: m :: _ -> let (c, ix) = cls_of m in mk c ix true (op = "cwake")
+        | ("begin" | "create" | "join" | "cont" | "signal" | "bcast" | "yield"), _ -> mk "" 0 true true
+        | "exit", _ -> mk "" 0 true false
+        | _ -> None)
+     with Failure _ -> None)
+  | _ -> None
+
+let process_run_refined hdr (lines : string array) =
+  incr rtot_runs;
+  let kv = Hashtbl.create 16 in
+  let toks = Array.of_list (String.split_on_char ' ' hdr) in
+  if Array.length toks > 2 then Hashtbl.replace kv "seq" toks.(2);
+  let i = ref 3 in
+  while !i + 1 < Array.length toks do Hashtbl.replace kv toks.(!i) toks.(!i + 1); i := !i + 2 done;
+  let g k = try Hashtbl.find kv k with Not_found -> "-" in
+  let names : (string, string * int) Hashtbl.t = Hashtbl.create 256 in
+  Array.iter (fun ln -> match String.split_on_char ' ' ln with
+      | [_; "name"; m; c] -> Hashtbl.replace names m (split_name c) | _ -> ()) lines;
+  (* events (with the trace line number) *)
+  let evl = ref [] in
+  Array.iteri (fun li ln -> match parse_rev names ln with Some e -> evl := (li + 1, e) :: !evl | None -> ()) lines;
+  let evs = Array.of_list (List.rev !evl) in
+  let n = Array.length evs in
+  (* next scheduling event of the same thread *)
+  let nxt = Array.make n (-1) in
+  let last : (int, int) Hashtbl.t = Hashtbl.create 32 in
+  for e = n - 1 downto 0 do
+    let (_, ev) = evs.(e) in
+    nxt.(e) <- (try Hashtbl.find last ev.e_tid with Not_found -> -1);
+    if ev.e_sched then Hashtbl.replace last ev.e_tid e
+  done;
+  let cur : rpacket option ref = ref None in
+  let hdr_ready = ref false in
+  let h_n = ref 0 and h_maxit = ref 0 and h_pooln = ref 0 and h_tasks = ref 0 in
+  let h_cl : int list list ref = ref [] and h_ag : (int, bool) Hashtbl.t = Hashtbl.create 16 in
+  let h_agend : (int, bool) Hashtbl.t = Hashtbl.create 16 in
+  let pend : (int * string, int) Hashtbl.t = Hashtbl.create 16 in
+  let packets = ref 0 and steps = ref 0 and ops = ref 0 and tasks = ref 0 and samples = ref 0 and hashes = ref 0 in
+  let verdict = ref "ok" in
+  let cur_line = ref 0 in
+  let commit pk st d = pk.rs <- st; pk.rsteps <- pk.rsteps + d; pk.since <- pk.since + d; if pk.since > 256 then compact pk in
+  (* the local instructions of task w up to its next call *)
+  let run_ahead pk tid w e =
+    let ne = nxt.(e) in
+    (* observations of this thread between e and its next scheduling event *)
+    let obs_st = ref None and obs_job = ref None and obs_vh = ref [] and ended = ref false in
+    let stop = if ne < 0 then n else ne in
+    for x = e + 1 to stop - 1 do
+      let (_, ev) = evs.(x) in
+      if ev.e_tid = tid && ev.e_op = "ev" then
+        (match ev.e_tag with
+         | "st" -> obs_st := Some ev.e_a | "job" -> obs_job := Some ev.e_a
+         | "vh" -> obs_vh := (ev.e_a lsr 24, ev.e_a land 0xffffff) :: !obs_vh
+         | "w_end" -> ended := true | _ -> ())
+    done;
+    let target =
+      if !ended then TRet
+      else if ne < 0 then TNone
+      else let (_, nev) = evs.(ne) in
+        if (nev.e_op = "lock" || nev.e_op = "unlock") && is_protocol nev.e_cls then TOp (nev.e_op, nev.e_cls, nev.e_ix) else TNone in
+    if target <> TNone then begin
+      let wn = nat_fast w in
+      (match !obs_job with
+       | Some code ->
+         let th = pk.rs.r_th wn in
+         let mi = int_of_nat th.t_i and mit = (match th.t_it with Some x -> int_of_nat x | None -> -1) in
+         let ri = if code < 0 then -1 else code land 1023 and rit = if code < 0 then -1 else code lsr 10 in
+         if (rit <> mit) || (rit >= 0 && ri <> mi) then
+           raise (Reject ("refined-job-mismatch", Printf.sprintf "mps_thread_job_queue_next returned (root %d, iter %d), the model's queue hands out (root %d, iter %d)" ri rit mi mit))
+       | None -> ());
+      let fkind = ref "refined-model-reject" and fmsg = ref "no path of the program text matches" in
+      let vh_ok st =
+        List.for_all (fun (j, h) ->
+            let ver = int_of_nat (st.r_valv (nat_fast j)) + int_of_nat (st.r_auxv (nat_fast j)) in
+            match Hashtbl.find_opt pk.lasth j with
+            | Some (h0, v0) when h0 <> h && v0 = ver ->
+              fkind := "refined-value-written-outside-model-write";
+              fmsg := Printf.sprintf "the value of root %d changed between two observations although no path of the model performs a value write on it there (written outside the critical section the text shows?)" j;
+              false
+            | _ -> true) !obs_vh in
+      let obs_ok st =
+        vh_ok st &&
+        match !obs_st with
+        | None -> true
+        | Some a ->
+          let th = st.r_th wn in
+          let nz = a lsr 3 and has = (a land 4) <> 0 and ex = (a land 2) <> 0 and ag = (a land 1) <> 0 in
+          if int_of_nat st.r_nz <> nz then (fkind := "refined-nzeros-mismatch"; fmsg := Printf.sprintf "*nzeros is %d, the model has %d" nz (int_of_nat st.r_nz); false)
+          else if st.r_excep <> ex then (fkind := "refined-excep-mismatch"; fmsg := Printf.sprintf "*excep is %b, the model has %b" ex st.r_excep; false)
+          else if has && th.t_it <> None && target <> TOp ("unlock", "queue", 0) && st.r_again th.t_i <> ag then
+            (* (inside mps_thread_job_queue_next the harness still has the previous job's root) *)
+            (fkind := "refined-again-mismatch"; fmsg := Printf.sprintf "root[%d]->again is %b, the model has %b" (int_of_nat th.t_i) ag (not ag); false)
+          else true in
+      let tstr = (match target with TRet -> "return" | TOp (k, c, ix) -> Printf.sprintf "%s %s.%d" k c ix | TNone -> "-") in
+      let rec go st d =
+        if d > 800 then (fmsg := "more than 800 local instructions before the next call"; None) else
+        match instr_at pk.rprm st wn with
+        | None -> fmsg := "the model task is not running"; None
+        | Some ins ->
+          let at_call kind m =
+            let (c, ix) = cls_of_lk (lock_of (st.r_th wn) m) in
+            (match target with
+             | TOp (k', c', ix') when k' = kind && c' = c && (ix' = ix || not (c = "root" || c = "aberth")) -> if obs_ok st then Some (st, d) else None
+             | _ -> if !fkind = "refined-model-reject" then fmsg := Printf.sprintf "the model stands at %s %s.%d, the real thread's next call is %s" kind c ix tstr; None) in
+          (match ins with
+           | ILock (gd, m) when effective pk.rprm gd -> at_call "lock" m
+           | IUnlock (gd, m) when effective pk.rprm gd -> at_call "unlock" m
+           | IRet -> (match target with
+               | TRet -> if obs_ok st then Some (st, d) else None
+               | _ -> if !fkind = "refined-model-reject" then fmsg := Printf.sprintf "the model returns, the real thread's next call is %s" tstr; None)
+           | _ ->
+             let nondet = (match ins with IBr (CData _, _, _) -> true | INewton -> true | _ -> false) in
+             let try_ch ch = (match rstep pk.rprm st wn ch with Some st' -> go st' (d + 1) | None -> fmsg := "local instruction not enabled"; None) in
+             (match try_ch false with Some r -> Some r | None -> if nondet then (incr rtot_search; try_ch true) else None)) in
+      (match go pk.rs 0 with
+       | Some (st, d) -> commit pk st d
+       | None -> raise (Reject (!fkind, !fmsg)));
+      if !obs_st <> None then incr samples;
+      List.iter (fun (j, h) ->
+          incr hashes;
+          let ver = int_of_nat (pk.rs.r_valv (nat_fast j)) + int_of_nat (pk.rs.r_auxv (nat_fast j)) in
+          Hashtbl.replace pk.lasth j (h, ver)) (List.rev !obs_vh)
+    end in
+  (try
+     for e = 0 to n - 1 do
+       let (li, ev) = evs.(e) in
+       cur_line := li;
+       let tid = ev.e_tid in
+       if ev.e_op = "ev" then begin
+         let a = ev.e_a in
+         match ev.e_tag with
+         | "pk_begin" -> h_n := a; h_cl := []; Hashtbl.reset h_ag; Hashtbl.reset h_agend; hdr_ready := false
+         | "pk_maxit" -> h_maxit := a | "pk_pooln" -> h_pooln := a | "pk_tasks" -> h_tasks := a
+         | "pk_cl" -> h_cl := [] :: !h_cl
+         | "pk_r" -> (match !h_cl with c :: r -> h_cl := (a :: c) :: r | [] -> ())
+         | "pk_ag" -> Hashtbl.replace h_ag (a / 2) (a land 1 = 1)
+         | "pk_go" -> if !cur <> None then raise (Reject ("refined-model-reject", "a packet starts while another one is open")); hdr_ready := true
+         | "w_req" | "w_nz" | "w_ex" -> Hashtbl.replace pend (tid, ev.e_tag) a
+         | "w_begin" when !hdr_ready ->
+           let pget k = try Hashtbl.find pend (tid, k) with Not_found -> 0 in
+           let pk = (match !cur with
+               | Some pk ->
+                 if pk.rvar <> a then raise (Reject ("refined-model-reject", "tasks of two different worker bodies in one packet"));
+                 if pk.rreq <> pget "w_req" then raise (Reject ("refined-model-reject", "required_zeros differs between the tasks of one packet"));
+                 pk
+               | None ->
+                 let cl = List.rev_map (fun c -> List.rev_map nat_of_int c) !h_cl in
+                 let k = max 1 !h_tasks in
+                 let prm = mk_params (variant_of_int a) (nat_of_int k) (nat_of_int !h_maxit) cl (nat_of_int (pget "w_req")) (!h_pooln <= 1) in
+                 let ag = Hashtbl.copy h_ag in
+                 let again0 = fun i -> (try Hashtbl.find ag (int_of_nat i) with Not_found -> false) in
+                 let pk = { rs = r_init prm again0 (nat_of_int (pget "w_nz")) (pget "w_ex" <> 0); rprm = prm; rvar = a; rn = !h_n; rk = k; rreq = pget "w_req";
+                            rmap = Hashtbl.create 16; rnext = 0; rsteps = 0; since = 0; lasth = Hashtbl.create 16; rops = 0 } in
+                 compact pk; cur := Some pk; incr packets; pk) in
+           if Hashtbl.mem pk.rmap tid then raise (Reject ("refined-model-reject", "a task begins on a thread that is still running one"));
+           if pk.rnext >= pk.rk then raise (Reject ("refined-model-reject", "more tasks than s->n_threads"));
+           let w = pk.rnext in
+           pk.rnext <- w + 1; Hashtbl.replace pk.rmap tid w; incr tasks;
+           rvar_hist.(a) <- rvar_hist.(a) + 1; if !h_pooln <= 1 then rvar_pool1.(a) <- rvar_pool1.(a) + 1;
+           (match rstep pk.rprm pk.rs (nat_fast w) false with
+            | Some st -> commit pk st 1
+            | None -> raise (Reject ("refined-model-reject", "a task begins while another one runs although the pool has one thread")));
+           run_ahead pk tid w e
+         | "w_end" ->
+           (match !cur with
+            | Some pk ->
+              (match Hashtbl.find_opt pk.rmap tid with
+               | Some w ->
+                 (match instr_at pk.rprm pk.rs (nat_fast w) with
+                  | Some IRet -> (match rstep pk.rprm pk.rs (nat_fast w) false with Some st -> commit pk st 1 | None -> raise (Reject ("refined-model-reject", "return not enabled")))
+                  | Some ins -> raise (Reject ("refined-model-reject", "the real task returned, the model task stands at `" ^ instr_name ins ^ "`"))
+                  | None -> raise (Reject ("refined-model-reject", "the real task returned, the model task is not running")));
+                 Hashtbl.remove pk.rmap tid
+               | None -> ())
+            | None -> ())
+         | "pk_agend" -> Hashtbl.replace h_agend (a / 2) (a land 1 = 1)
+         | "pk_end" ->
+           hdr_ready := false;
+           (match !cur with
+            | Some pk ->
+              if Hashtbl.length pk.rmap > 0 then raise (Reject ("refined-model-reject", "a task is still running when the packet's queue is freed"));
+              let s = pk.rs in
+              for w = 0 to pk.rnext - 1 do
+                if int_of_nat (stat_tag (s.r_th (nat_fast w))) <> 2 then raise (Reject ("refined-model-reject", Printf.sprintf "task %d has not returned at packet end" w))
+              done;
+              let free l = (s.r_own l = None) in
+              if not (free LQ && free LG && free LS) then raise (Reject ("refined-mutex-held-at-drain", "queue / global Aberth / gs mutex owned in the model at packet end"));
+              for i = 0 to pk.rn - 1 do
+                if not (free (LR (nat_fast i)) && free (LA (nat_fast i))) then raise (Reject ("refined-mutex-held-at-drain", Printf.sprintf "roots_mutex / aberth_mutex %d owned in the model at packet end" i))
+              done;
+              Hashtbl.iter (fun i b ->
+                  if s.r_again (nat_fast i) <> b then
+                    raise (Reject ("refined-again-mismatch", Printf.sprintf "root %d: again at packet end is %b, the model has %b" i b (not b)))) h_agend;
+              steps := !steps + pk.rsteps; ops := !ops + pk.rops;
+              cur := None
+            | None -> ())
+         | _ -> ()
+       end else begin
+         match !cur with
+         | None -> ()
+         | Some pk ->
+           (match Hashtbl.find_opt pk.rmap tid with
+            | Some w ->
+              let wn = nat_fast w in
+              if (ev.e_op = "lock" || ev.e_op = "unlock") && is_protocol ev.e_cls then begin
+                (* the model task must stand at the same call *)
+                (match instr_at pk.rprm pk.rs wn with
+                 | Some ((ILock (gd, m) | IUnlock (gd, m)) as ins) when effective pk.rprm gd ->
+                   let kind = (match ins with ILock _ -> "lock" | _ -> "unlock") in
+                   let (c, ix) = cls_of_lk (lock_of (pk.rs.r_th wn) m) in
+                   if not (kind = ev.e_op && c = ev.e_cls && (ix = ev.e_ix || not (c = "root" || c = "aberth"))) then
+                     raise (Reject ("refined-model-reject", Printf.sprintf "the real thread does %s %s.%d, the model task stands at %s %s.%d" ev.e_op ev.e_cls ev.e_ix kind c ix));
+                   (match rstep pk.rprm pk.rs wn false with
+                    | Some st -> commit pk st 1; pk.rops <- pk.rops + 1; hist_add rinstr_hist (kind ^ ":" ^ c)
+                    | None -> raise (Reject ("refined-model-reject", Printf.sprintf "%s %s.%d is not enabled in the model (mutex owned by another task / not owned)" ev.e_op ev.e_cls ev.e_ix)))
+                 | Some ins -> raise (Reject ("refined-model-reject", Printf.sprintf "the real thread does %s %s.%d, the model task stands at `%s`" ev.e_op ev.e_cls ev.e_ix (instr_name ins)))
+                 | None -> raise (Reject ("refined-model-reject", "call by a task that is not running in the model")));
+                if ev.e_op = "lock" then run_ahead pk tid w e
+              end else if ev.e_start then run_ahead pk tid w e
+            | None ->
+              if (ev.e_op = "lock" || ev.e_op = "unlock") && is_protocol ev.e_cls then
+                raise (Reject ("refined-model-reject", "worker-protocol call by a thread that runs no worker task")))
+       end
+     done
+   with Reject (kind, detail) ->
+     verdict := kind;
+     let evtxt = if !cur_line >= 1 && !cur_line <= Array.length lines then lines.(!cur_line - 1) else "" in
+     let var = (match !cur with Some pk -> variant_name.(pk.rvar) | None -> "-") in
+     Printf.printf "RBAD seq=%s kind=%s line=%d event=\"%s\" detail=\"%s\" variant=%s mode=%s seed=%s\n" (g "seq") kind !cur_line evtxt detail var (g "mode") (g "seed"));
+  if !verdict = "ok" then incr rtot_ok else incr rtot_rej;
+  rtot_steps := !rtot_steps + !steps; rtot_ops := !rtot_ops + !ops; rtot_tasks := !rtot_tasks + !tasks; rtot_packets := !rtot_packets + !packets;
+  rtot_samples := !rtot_samples + !samples; rtot_hashes := !rtot_hashes + !hashes;
+  Printf.printf "RRUN seq=%s packets=%d tasks=%d instructions=%d calls=%d samples=%d hashes=%d refined=%s\n" (g "seq") !packets !tasks !steps !ops !samples !hashes !verdict
+
 let parse_edges s =
   List.filter_map (fun e -> match String.split_on_char '>' e with [a; b] -> Some (a, b) | _ -> None)
     (List.filter (fun x -> x <> "") (String.split_on_char ',' s))
@@ -240,7 +555,7 @@ let () =
        if (not !in_res) then begin
          if String.length ln > 9 && String.sub ln 0 9 = "# result " then in_res := true
          else if String.length ln > 6 && String.sub ln 0 6 = "# run " then (hdr := ln; buf := []; in_run := true)
-         else if ln = "# end" then (if !in_run then process_run !hdr (Array.of_list (List.rev !buf)); in_run := false)
+         else if ln = "# end" then (if !in_run then (let a = Array.of_list (List.rev !buf) in process_run !hdr a; process_run_refined !hdr a); in_run := false)
          else if !in_run && String.length ln > 0 && ln.[0] <> '#' then buf := ln :: !buf
        end
      done
@@ -252,4 +567,11 @@ let () =
   let hl = Hashtbl.fold (fun c n acc -> Printf.sprintf "%s:%d" c n :: acc) lock_hist [] in
   Printf.printf "LOCKS %s\n" (String.concat " " (List.sort compare hl));
   Printf.printf "SUMMARY runs=%d ok=%d rejected=%d events=%d labels=%d packets=%d fetches=%d maxfetch=%d xunlock=%d\n"
-    !tot_runs !tot_ok !tot_rej !tot_events !tot_labels !tot_packets !tot_fetches !max_fetch !tot_xunlock
+    !tot_runs !tot_ok !tot_rej !tot_events !tot_labels !tot_packets !tot_fetches !max_fetch !tot_xunlock;
+  Printf.printf "RSUMMARY runs=%d ok=%d rejected=%d packets=%d tasks=%d instructions=%d calls=%d samples=%d hashes=%d backtracks=%d\n"
+    !rtot_runs !rtot_ok !rtot_rej !rtot_packets !rtot_tasks !rtot_steps !rtot_ops !rtot_samples !rtot_hashes !rtot_search;
+  Printf.printf "RVARIANTS %s\n" (String.concat " " (Array.to_list (Array.mapi (fun i nm -> Printf.sprintf "%s:%d:%d" nm rvar_hist.(i) rvar_pool1.(i)) variant_name)));
+  let il = Hashtbl.fold (fun c n acc -> Printf.sprintf "%s=%d" c n :: acc) rinstr_hist [] in
+  Printf.printf "RCALLS %s\n" (String.concat " " (List.sort compare il));
+  let okp = List.for_all (fun v -> check_prog (prog_of v) (ann_of v)) [VF; VD; VM; VSF; VSD; VSM] in
+  Printf.printf "RCHECKPROG %b\n" okp
